@@ -2,7 +2,9 @@ package main
 
 import (
 	_ "github.com/bufbuild/bufverif/checks/c02"
+	_ "github.com/bufbuild/bufverif/checks/c06"
 	_ "github.com/bufbuild/bufverif/checks/c09"
+	_ "github.com/bufbuild/bufverif/checks/c12"
 	_ "github.com/bufbuild/bufverif/checks/c13"
 	_ "github.com/bufbuild/bufverif/checks/c14"
 	_ "github.com/bufbuild/bufverif/checks/c15"
